@@ -34,7 +34,7 @@ def random_world(rnd, k):
         return out
     jobs = []
     for i in range(rnd.randint(5, 7)):
-        kind = rnd.choice(['del', 'del', 'pick', 'pick', 'svc', 'pd'])
+        kind = rnd.choice(['del', 'del', 'pick', 'pick', 'svc', 'pd', 'rep'])
         if kind == 'pd':
             jobs.append({'kind': 'pd', 'q': rnd.randint(1, 2), 'value': rnd.randint(0, 5),
                          'p': {'loc': rnd.randint(2, n), 'dur': rnd.choice([0, 1, 2]), 'tws': tws()},
